@@ -56,6 +56,7 @@ def gen_name_stream(rng, d, tier):
         if arch != ARCH_X86:
             for i in range(0, cnt + 3):
                 cmds.append("NI %d %d" % (arch, i))
+                cmds.append("NA %d %d" % (arch, i))
             cmds += ["NI %d %d" % (arch, v) for v in (65535, 65536, 1 << 20, (1 << 31) + 5, (1 << 32) - 1)]
         pool = names[key][1:] + (aliases if key == "x86" else [])
         strs = set(pool) if arch != ARCH_X86 else set(rng.sample(pool, 200))
@@ -103,7 +104,7 @@ def judge_names(ck, d, cmds, impl, model, stats):
         stats["names_cmds"] += 1
         xi = x.split(); yi = y.split()
         # ---- correspondence
-        if arch == ARCH_A64:
+        if arch == ARCH_A64 and c[0] != "NA":
             y_scan, y_single = " ".join(yi[:-1]), " ".join(yi[:-2] + yi[-1:])
             if x != y_scan:
                 a64_diff.append((cmd, x, y))
@@ -116,6 +117,18 @@ def judge_names(ck, d, cmds, impl, model, stats):
             ck.violation("C13/correspondence/names-x86", "x86 name lookup: implementation %r, model %r on %r" % (x, y, cmd),
                          {"command": cmd, "impl": x, "model": y, "broken": "correspondence of InstNames model with /repo (x86)"}, no_input=True)
         # ---- oracle on the implementation's answer
+        if c[0] == "NA":
+            # formatted name: the python reading of the format string (independent of the Coq model)
+            iid = int(c[2]); real = iid & 0xFFFF if arch == ARCH_A64 else iid
+            if real < d[key + ".count"][0]:
+                want = c13_gen.formatted_name(d, key, real)
+                got = bytes.fromhex(xi[2]).decode("latin1") if xi[2] != "-" else ""
+                stats["formatted_names"] = stats.get("formatted_names", 0) + 1
+                if xi[1] != "0" or got != want:
+                    ck.violation("C13/%s-formatted-name/%d" % (key, iid), "inst_id_to_string(%d, kAliases) = (%s, %r), table says %r" % (iid, xi[1], got, want), {"command": cmd, "impl": x})
+            elif xi[1] == "0":
+                ck.violation("C13/%s-undefined-id-has-name" % key, "inst_id_to_string(kAliases) accepts undefined id %d" % iid, {"command": cmd, "impl": x})
+            continue
         if c[0] == "NI":
             iid = int(c[2])
             real = iid & 0xFFFF if arch == ARCH_A64 else iid
@@ -174,12 +187,101 @@ def read_corpus(name):
     return out
 
 
+def run_db_rows(ck, d, forms, stats):
+    """C13_signature_rows_present, python side: the database rows (kind level) of the CURRENT database against the CURRENT tables;
+    names a vendored row that is no longer contained, and any absent row that is not on the vendored exception list"""
+    names = c13_gen.all_names(d, "x86")
+    n2i = {n: i for i, n in enumerate(names) if i}
+    rows, unsupported = c13_forms.db_rows(forms, n2i)
+    fmt = lambda r: "%d %d %d %s" % (r[1], r[2], len(r[3]), " ".join("%d %d %d" % o for o in r[3]))
+    vend_present = read_corpus("db_rows_x86.txt")
+    vend_absent = read_corpus("db_rows_absent_x86.txt")
+    present, absent = {}, {}
+    for r in rows:
+        (present if c13_forms.row_present(d, r) else absent)[fmt(r)] = r[0]
+    for line, key in vend_present.items():
+        t = [int(x) for x in line.split()]
+        row = (key, t[0], t[1], tuple((t[3 + 3 * k], t[4 + 3 * k], t[5 + 3 * k]) for k in range(t[2])))
+        if not c13_forms.row_present(d, row):
+            ck.violation("C13/signature-row-missing/%s/%d" % (key, t[1]), "database row %r (modes %d) is no longer contained in any signature record of its "
+                         "instruction (_inst_signature_table / _op_signature_table): dropped or narrowed row" % (key, t[1]), {"row": line, "form": key})
+    for line, key in absent.items():
+        if line not in vend_absent and line not in vend_present:
+            ck.violation("C13/signature-row-absent/%s/%s" % (key, line.split()[1]), "database row %r of an instruction AsmJit has is contained in no signature record and is not on the "
+                         "list of known absent rows (corpus/C13/db_rows_absent_x86.txt)" % key, {"row": line, "form": key})
+    stats.update({"db_kind_rows": len(rows), "db_kind_rows_present": len(present), "db_kind_rows_absent_known": len([l for l in absent if l in vend_absent]),
+                  "db_rows_not_expressible": len(unsupported), "db_kind_rows_present_not_vendored": len([l for l in present if l not in vend_present])})
+    # converse (weak): signature records that admit no database row of their instruction, against the vendored exception list
+    orphans = [(names[i], k) for i, k in c13_forms.orphan_records(d, [r for r in rows if fmt(r) in present])]
+    vend_orph = set(tuple(l.split()) for l in read_corpus_lines("records_without_origin_x86.txt"))
+    for nm, k in orphans:
+        if (nm, str(k)) not in vend_orph:
+            ck.violation("C13/signature-record-without-origin/%s/%d" % (nm, k), "signature record #%d of %r admits no database row of %r (operand kinds, implicit flags, a shared mode): "
+                         "a record that widens what validate() accepts beyond the database" % (k, nm, nm), {"instruction": nm, "record": k})
+    stats["signature_records_without_db_origin_known"] = len([o for o in orphans if (o[0], str(o[1])) in vend_orph])
+    if os.environ.get("C13_VENDOR") == "1":
+        os.makedirs(CORPUS, exist_ok=True)
+        with open(os.path.join(CORPUS, "records_without_origin_x86.txt"), "w") as f:
+            f.write("# C13: signature records (<mnemonic> <index within the instruction's records>) that admit no database row of their instruction: known.\n")
+            for nm, k in orphans:
+                f.write("%s %d\n" % (nm, k))
+        with open(os.path.join(CORPUS, "db_rows_x86.txt"), "w") as f:
+            f.write("# C13: ISA database rows (one operand kind per operand) contained in the signature tables of the reference tree.\n"
+                    "# <inst id> <mode bits> <n> {<needed OpFlags> <fixed register bit> <implicit>}*n \\t <row>; regenerate with C13_VENDOR=1 ./check C13 --tier thorough\n")
+            for l in sorted(present, key=lambda x: [int(v) for v in x.split()]):
+                f.write("%s\t%s\n" % (l, present[l]))
+        with open(os.path.join(CORPUS, "db_rows_absent_x86.txt"), "w") as f:
+            f.write("# C13: ISA database rows of instructions AsmJit has that NO signature record contains (APX NDD forms, AVX10.2 zmm forms ...): known, reported as count.\n")
+            for l in sorted(absent, key=lambda x: [int(v) for v in x.split()]):
+                f.write("%s\t%s\n" % (l, absent[l]))
+        ck.log("vendored %d present / %d absent database rows" % (len(present), len(absent)))
+
+
+LLVM_ATTR = "+avx512f,+avx512vl,+avx512bw,+avx512dq,+avx512cd,+avx512vnni,+avx512bf16,+avx512fp16,+avxvnni,+avx512vbmi,+avx512vbmi2,+avx512ifma,+gfni,+vaes,+vpclmulqdq"
+
+
+def adjudicate(samples):
+    """llvm-mc (independent disassembler) on the bytes the assembler produced for a form the validator refuses: who is right?"""
+    out = []
+    for (name, who), (key, mode, cmd, b0) in sorted(samples.items()):
+        rec = {"form": key, "mode": mode, "who_accepts": who, "command": cmd}
+        if who == "encoder-only" and b0 != "-":
+            hexs_ = " ".join("0x" + b0[i:i + 2] for i in range(0, len(b0), 2))
+            rc, o, e = vlib.sh(["llvm-mc", "--disassemble", "-triple=" + ("x86_64" if mode else "i386"), "-mattr=" + LLVM_ATTR, "--output-asm-variant=1"], inp=hexs_ + "\n", timeout=30)
+            lines = [l.strip() for l in o.splitlines() if l.strip() and not l.strip().startswith(".")]
+            rec["bytes"] = b0
+            rec["llvm_mc"] = lines[0] if lines else "<not decodable>"
+            if not lines or "invalid" in e:
+                rec["verdict"] = "unknown to llvm-mc 14 (cannot adjudicate)"
+            else:
+                t = lines[0].split(None, 1)
+                mn = t[0]
+                nops_llvm = len([x for x in (t[1].split(",") if len(t) > 1 else []) if x.strip()])
+                nops_form = len([x for x in key.split(" ", 1)[1].split(",") if x and not x.startswith("{") and x not in ("lock", "rep", "repne", "fs:", "addr32", "addr16", "r8-15", "v16-31", "imm<0") and not x.startswith("idx*")])
+                if mn != name:
+                    rec["verdict"] = "assembler emitted a DIFFERENT instruction (%s): the validator is right to refuse, the assembler should refuse too" % mn
+                elif nops_llvm != nops_form:
+                    rec["verdict"] = "assembler emitted another form of the mnemonic (%d operands instead of %d): the validator is right" % (nops_llvm, nops_form)
+                else:
+                    rec["verdict"] = "assembler emitted the form the database lists: the validator tables lack it"
+        else:
+            rec["verdict"] = "assembler refuses a form the database lists and the validator accepts"
+        out.append(rec)
+    return out
+
+
+def read_corpus_lines(name):
+    p = os.path.join(CORPUS, name)
+    return [l for l in open(p).read().splitlines() if l.strip() and not l.startswith("#")] if os.path.exists(p) else []
+
+
 def run_forms(ck, d, impl, model, rng, stats):
     """verdict differential over all database forms (+ decorations + near-miss mutations); see module docstring"""
     rc, out, err = vlib.sh(["node", os.path.join(vlib.VERIF, "tools", "c13_dbforms.js"), vlib.REPO], timeout=300)
     if rc != 0:
         raise RuntimeError("node c13_dbforms.js failed: %s" % err[-2000:])
     forms = c13_forms.load_forms(out)
+    run_db_rows(ck, d, forms, stats)
     names = c13_gen.all_names(d, "x86")
     n2i = {n: i for i, n in enumerate(names) if i}
     items, skipped = c13_forms.instantiate(forms, n2i, rng, ck.tier)
@@ -215,11 +317,12 @@ def run_forms(ck, d, impl, model, rng, stats):
               "mut_encoder_only", "mut_validator_only", "hook_checked", "validator_model_diff", "new_implemented_not_vendored", "a_validator_follows_pinned_quirk"):
         st.setdefault(k, 0)
     impl_now, excl_now = {}, {}
+    disagree_samples = {}
     follows = {"repaired": 0, "pinned": 0}
     for it, x, y in zip(items, ri, rm):
         a = x.split(); m = y.split()
         cmd = it["cmd"]; name = it["key"].split()[0]; mode = it["mode"]
-        if len(a) != 6 or a[1] == "parse-error":
+        if len(a) != 9 or a[1] == "parse-error":
             ck.violation("C13/harness-protocol", "harness could not build %r: %r" % (cmd, x), {"command": cmd, "detail": x}, no_input=True)
             continue
         verr, e0, b0, e1, b1 = int(a[1]), int(a[2]), a[3], int(a[4]), a[5]
@@ -246,6 +349,13 @@ def run_forms(ck, d, impl, model, rng, stats):
         if e1 != want_e1 or (verr != 0 and b1 != "-") or (verr == 0 and b1 != b0):
             ck.violation("C13/validation-hook/%s" % name, "%r: validate=%d, emit without validation=(%d,%s), with validation=(%d,%s): switching validation on must "
                          "give the validator's error or the identical result" % (cmd, verr, e0, b0, e1, b1), {"command": cmd, "impl": x})
+        # ---- oracle 2b: the Builder path (kValidateIntermediate): emit returns the validator's verdict; an accepted instruction serializes
+        # (finalize) to exactly what the Assembler produces directly
+        eb, ef, bb = int(a[6]), int(a[7]), a[8]
+        st["builder_hook_checked"] = st.get("builder_hook_checked", 0) + 1
+        if eb != verr or (verr == 0 and (ef != e0 or (e0 == 0 and bb != b0))):
+            ck.violation("C13/builder-validation-hook/%s" % name, "%r: validate=%d, Assembler=(%d,%s), Builder with kValidateIntermediate: emit=%d, finalize=(%d,%s): the Builder must "
+                         "return the validator's verdict and serialize an accepted instruction to the Assembler's bytes" % (cmd, verr, e0, b0, eb, ef, bb), {"command": cmd, "impl": x})
         kind = it["kind"]
         if kind.startswith("mut"):
             st["mutations"] += 1
@@ -271,6 +381,7 @@ def run_forms(ck, d, impl, model, rng, stats):
                 st["db_refused_by_both"] += 1
             else:
                 who = "validator-only" if verr == 0 else "encoder-only"
+                disagree_samples.setdefault((name, who), (it["key"], mode, cmd, b0))
                 ck.violation("C13/validator-encoder-disagree/%s/%s" % (name, who), "database form %r (mode %d): validate=%d, assembler=%d (%s): %r"
                              % (it["key"], mode, verr, e0, b0, cmd), {"command": cmd, "impl": x, "form": it["key"]})
             if cmd in vend_impl and not (verr == 0 and e0 == 0):
@@ -286,6 +397,7 @@ def run_forms(ck, d, impl, model, rng, stats):
                 ck.violation("C13/excluded-mode-accepted/%s/%d" % (it["key"], mode), "database form %r is not available in %s mode (and no sibling form is) but "
                              "validate accepts it: %r" % (it["key"], "64-bit" if mode else "32-bit", cmd), {"command": cmd, "impl": x, "form": it["key"]})
     st["new_implemented_not_vendored"] = len([c for c in impl_now if c not in vend_impl])
+    st["disagreement_adjudication_llvm_mc"] = adjudicate(disagree_samples)
     st["validator_follows"] = ("repaired model" if follows["pinned"] == 0 else "pinned model with the operand-count quirk (%d answers)" % follows["pinned"])
     if follows["pinned"] and follows["repaired"]:
         ck.violation("C13/correspondence/validate-mixed", "validate follows neither model consistently (%s)" % follows, {"broken": "correspondence of X86Validate"}, no_input=True)
@@ -307,7 +419,7 @@ def run_forms(ck, d, impl, model, rng, stats):
 
 # ------------------------------------------------------------------ validator correspondence on operands the database sweep never builds
 REG_TYPES = [2, 3, 4, 5, 6, 7, 8, 9, 10, 11, 12, 13, 14, 15, 16, 17, 25, 26, 27, 28, 29, 30, 31]
-OPT_BITS = [8192, 65536, 131072, 16384, 32768, 8388608, 262144, 524288, 1073741824]
+OPT_BITS = [8192, 65536, 131072, 16384, 32768, 8388608, 262144, 524288, 1073741824, 4096]
 IMM_EDGES = [0, 1, 7, 8, 15, 16, 127, 128, 255, 256, 32767, 32768, 65535, 65536, 2147483647, 2147483648, 4294967295, 4294967296,
              (1 << 63) - 1, -1, -8, -9, -128, -129, -32768, -32769, -2147483648, -2147483649, -(1 << 63)]
 
@@ -438,11 +550,58 @@ def run_validator_stream(ck, d, impl, model, rng, stats):
     return [{"cmd": c, "impl": x, "model": y} for c, x, y in z[:3]]
 
 
+# ------------------------------------------------------------------ did the modelled C++ text change?
+MODELLED = [  # (file, first line marker, end marker (exclusive) or None = to the end of the file)
+    ("asmjit/core/instdb.cpp", "namespace InstNameUtils {", None),
+    ("asmjit/x86/x86instapi.cpp", "Error inst_id_to_string(", "// x86::InstInternal - Validate"),
+    ("asmjit/x86/x86instapi.cpp", "struct X86ValidationData {", "// x86::InstInternal - QueryRWInfo"),
+    ("asmjit/arm/a64instapi.cpp", "Error inst_id_to_string(", "// a64::InstInternal - Validate"),
+]
+
+
+def modelled_source_text():
+    out = []
+    for rel, a, b in MODELLED:
+        try:
+            txt = open(os.path.join(vlib.REPO, rel)).read()
+        except OSError:
+            out.append("### %s: <missing>" % rel)
+            continue
+        i = txt.find(a)
+        j = txt.find(b, i) if (b and i >= 0) else len(txt)
+        out.append("### %s [%s .. %s]" % (rel, a, b))
+        out.append(txt[i:j].rstrip() if i >= 0 and j >= 0 else "<marker not found>")
+    return "\n".join(out) + "\n"
+
+
+def source_drift(ck):
+    """the C++ text the models transliterate (name utilities, string_to_inst_id, the whole x86 validate()) is vendored in
+    corpus/C13/modelled_source.txt; a difference is not a verdict, but it is printed (and attached to correspondence violations)
+    so that the cause of a model/implementation disagreement is obvious"""
+    import difflib, hashlib
+    cur = modelled_source_text()
+    ref_path = os.path.join(CORPUS, "modelled_source.txt")
+    if os.environ.get("C13_VENDOR") == "1" or not os.path.exists(ref_path):
+        os.makedirs(CORPUS, exist_ok=True)
+        open(ref_path, "w").write(cur)
+    ref = open(ref_path).read()
+    h_ref, h_cur = hashlib.sha256(ref.encode()).hexdigest()[:16], hashlib.sha256(cur.encode()).hexdigest()[:16]
+    if ref == cur:
+        ck.log("modelled C++ text unchanged (sha256 %s)" % h_cur)
+        return ""
+    diff = [l for l in difflib.unified_diff(ref.splitlines(), cur.splitlines(), "modelled (corpus/C13/modelled_source.txt)", "VERIF_REPO", lineterm="", n=1)]
+    txt = "\n".join(diff[:80])
+    ck.log("NOTE: the C++ text the models transliterate CHANGED (sha256 %s -> %s); ValidateModel.v / NameModel.v may need the same change:\n%s" % (h_ref, h_cur, txt))
+    ck.notes.append("modelled C++ text differs from corpus/C13/modelled_source.txt (sha256 %s -> %s): %s" % (h_ref, h_cur, txt[:3000]))
+    return txt
+
+
 # ------------------------------------------------------------------ main
 def run(ck):
     rng = random.Random(ck.seed)
     stats = {"names_cmds": 0, "roundtrips": 0, "lookups": 0, "lookups_hit": 0, "disagreements": 0}
 
+    drift = source_drift(ck)
     # S1: translator
     dump_exe = ck.build_harness("c13_dump", ["c13_dump.cpp"])
     rc, dump_txt, err = vlib.sh([dump_exe], timeout=120)
@@ -455,6 +614,8 @@ def run(ck):
     regen_failed = []
     if r is not None:
         gen_dir, regen_failed, regen_log = r
+        # coq_regen recompiles every file of coq/gen; only this property's files are judged here
+        regen_failed = [n for n in regen_failed if n in gen_files]
         ck.log("tables differ from the committed snapshot: regenerated coq/gen in %s, failed: %s" % (gen_dir, regen_failed))
     else:
         ck.log("tables identical to the committed snapshot (coq/gen)")
@@ -507,14 +668,16 @@ def run(ck):
                      {"broken": "coq/gen/" + n, "unsorted_letters_a64": c13_gen.a64_unsorted_letters(d)}, no_input=True)
     # a gen file whose reflection lemmas fail has no .vo, so Properties_C13.v as a whole cannot be compiled: attribute the failure to the
     # theorems that rest on that file (the others are listed in the evidence as not re-checkable in this run)
-    THEOREM_GEN = {"X86Forms.v": ["C13_db_forms_validate", "C13_db_excluded_forms_refused", "C13_validate_operand_count_refuted"],
-                   "X86Sigs.v": ["C13_validator_tables_wf", "C13_db_forms_validate", "C13_db_excluded_forms_refused", "C13_validate_operand_count_refuted"],
+    THEOREM_GEN = {"X86DbRows.v": ["C13_signature_rows_present", "C13_db_row_signature_stage", "C13_signature_records_have_db_origin"],
+                   "X86Forms.v": ["C13_db_forms_validate", "C13_db_excluded_forms_refused", "C13_validate_operand_count_refuted"],
+                   "X86Sigs.v": ["C13_validator_tables_wf", "C13_signature_rows_present", "C13_db_row_signature_stage", "C13_validate_refuses_gpq_in_32bit", "C13_db_forms_validate", "C13_db_excluded_forms_refused", "C13_validate_operand_count_refuted"],
                    "X86Names.v": ["C13_find_correct", "C13_name_tables_in_bounds", "C13_name_roundtrip_x86", "C13_alias_roundtrip_x86",
-                                  "C13_string_to_inst_id_correct_x86", "C13_string_to_inst_id_none_x86"],
+                                  "C13_string_to_inst_id_correct_x86", "C13_string_to_inst_id_none_x86", "C13_alias_formats_roundtrip_x86",
+                                  "C13_alias_table_from_formats_x86"],
                    "A64Names.v": ["C13_name_tables_in_bounds", "C13_name_roundtrip_a64", "C13_name_roundtrip_a64_unique", "C13_string_to_inst_id_correct_a64",
                                   "C13_string_to_inst_id_none_a64", "C13_a64_single_range_failures", "C13_a64_single_range_unsorted_letters",
                                   "C13_name_roundtrip_a64_single_range_refuted"]}
-    blamed = set(t for n in regen_failed for t in THEOREM_GEN.get(n, []))
+    blamed = set(t for n in regen_failed for t in THEOREM_GEN.get("X86Forms.v" if n.startswith("X86Forms") else n, []))
     for o in ck.proof_failures():
         if regen_failed and o["name"] not in blamed:
             ck.notes.append("theorem %s not re-checked in this run: Properties_C13.v does not compile while coq/gen/%s fails" % (o["name"], ",".join(regen_failed)))
@@ -522,6 +685,10 @@ def run(ck):
         ck.violation("C13/proof/" + o["name"], "theorem %s no longer checks (%s)" % (o["name"], getattr(ck, "coq_log", "")[-800:]),
                      {"broken": "theorem " + o["name"], "file": "coq/theories/Properties/Properties_C13.v"}, no_input=True)
 
+    if drift:
+        for v in ck.violations:
+            if v["key"].startswith("C13/correspondence"):
+                v["what"] += "  [the modelled C++ text changed - see the NOTE at the top of this run / coverage.notes: %s]" % drift.replace("\n", " | ")[:400]
     samples = []
     if not isinstance(ri, tuple) and not isinstance(rm, tuple):
         z = list(zip(cmds, ri, rm))
